@@ -142,6 +142,25 @@ Theorem C15_ech_accept :
 Proof. exact accept_completes. Qed.
 Print Assumptions C15_ech_accept.
 
+(* server side, over a HISTORY of connections against one Config: every connection is answered from the configured
+   key list — a client holding the config of ANY configured key is accepted, every time, and a rejected client
+   receives exactly the SendAsRetry configs, in configuration order, every time. *)
+Theorem C15_ech_server_history :
+  forall keys cfgs, server_history keys cfgs = map (server_answer keys) cfgs.
+Proof. exact server_history_configured. Qed.
+Print Assumptions C15_ech_server_history.
+
+Theorem C15_ech_server_accepts_configured :
+  forall keys k, In k keys -> server_accepts keys (fst k) = true.
+Proof. exact server_accepts_configured. Qed.
+Print Assumptions C15_ech_server_accepts_configured.
+
+Theorem C15_ech_retry_list :
+  forall keys,
+  retry_list keys = match filter snd keys with [] => None | _ => Some (p16lp (flat_map fst (filter snd keys))) end.
+Proof. exact retry_list_exact. Qed.
+Print Assumptions C15_ech_retry_list.
+
 (* ---- the hypotheses are satisfiable by concrete non-trivial inputs ---- *)
 
 (* an inner hello with server_name, ECH, supported_groups, sig_algs, supported_versions, key_share; an outer hello that
@@ -188,3 +207,14 @@ Proof. eexists. split; [reflexivity|]. cbn. auto. Qed.
 Example C15_ex_reject :
   client_finish (fun n => bytes_eqb n [112]) (mkView [115] [112] false (Some [0; 0]) None true) = HsECHRejection [0; 0].
 Proof. reflexivity. Qed.
+
+(* keys [old (not retry); current (retry)], clients: stale, old, current, stale, old *)
+Example C15_ex_server_history :
+  server_history [([1], false); ([2], true)] [[9]; [1]; [2]; [9]; [1]] =
+  [(false, Some [0; 1; 2]); (true, None); (true, None); (false, Some [0; 1; 2]); (true, None)].
+Proof. reflexivity. Qed.
+
+(* a pre-filled SNIExtension is overwritten by the public name *)
+Example C15_ex_prefilled_sni :
+  apply_preset_sni (Some [112]) [115] (USni [115]) = USni [112] /\ apply_preset_sni None [115] (USni []) = USni [115].
+Proof. split; reflexivity. Qed.
